@@ -30,6 +30,7 @@ RULE = ('one evaluation = one sampled cache (Cache or FanoutCache shards; 4-14 i
         'damage item, change nothing), check(fix=True) (must report every damage item), check() again (must report nothing), and every '
         'remaining item is read back and compared; non-trivial = at least one damage item applied; distinct = SHA-256 of (cache '
         'program, damage list)')
+RULE += ' ' + 'Unknown files also get hidden (dot-prefixed, .nfs), backup (~) names and hidden directories; two damage subsets of one seed in 23 run in child interpreters started with -W ignore and -W error::UserWarning.'
 ASSUMPTIONS = ['damage is applied while no operation is in flight', 'truncation of text happens on a code-point boundary and extension appends ASCII, except in the low-rate probe of known finding F14']
 PROBES = ('damage_items', 'fanout_runs', 'rows_removed_by_fix', 'f14_probe', 'dir_spelled_dot', 'dir_spelled_double', 'dir_spelled_trailing', 'dir_spelled_dotdot', 'dir_spelled_relative', 'more_than_100_file_rows', 'journal_mode_not_wal', 'mass_loss', 'unknown_hidden_name')
 TECHNIQUE = 'deterministic simulation with out-of-band damage injection: damage-kind subsets enumerated per sampled cache; report / convergence / undamaged-intact oracle with an independent auditor'
